@@ -1,10 +1,11 @@
-(* C20 — the assert_vfs_* macros are sound and complete test oracles (Memfs side).
+(* C20 — the assert_vfs_* macros are sound and complete test oracles.
    Macros/Asserts.v mirrors each macro body over the Memfs mirror.  Proved: every checking macro passes
    exactly when its predicate holds in the state (so it never passes vacuously and never fails on a
    satisfying state), never changes the state, and a panic names the macro itself; acting macros that
    pass establish their postcondition.  PARTIAL: "panics exactly when the postcondition does not hold"
-   for the acting macros is covered by the exhaustive comparison with the real macros, and the Stdfs
-   side is not yet run. *)
+   for the acting macros is covered by the exhaustive comparison with the real macros (their mirrors are
+   the macro bodies: operation, then the postcondition check); the Stdfs side runs in C02's streams, whose
+   alphabet contains every macro and compares pass / panic and the resulting tree on both backends. *)
 From stdpp Require Import gmap.
 From Coq Require Import NArith.
 From RV Require Import Base.Str Base.Utf8 Path.Helpers Path.Expand Memfs.State Memfs.Ops Memfs.Step Macros.Asserts Macros.AssertsFacts.
